@@ -7,7 +7,11 @@
       (e2) [$$ … $$] display math (the fourth [mathkind], shared with the core
            grammar),
       (e3) specials ([~], [&], [--], … whatever the context declares), without or
-           with (mandatory brace) arguments.
+           with arguments,
+      (e4) optional arguments: a delimited argument [[ … ]] (any single-character
+           delimiter pair the signature declares) written or — when optional —
+           absent, an optional marker character ([*]) written or absent, and
+           whitespace in front of an argument where the argument kind allows it.
     Same conventions as the core grammar: whitespace is a FIELD of the item it
     precedes, [tree_of2] is in accumulator form (the collector's state after
     the items so far).
@@ -35,7 +39,10 @@ Inductive item2 :=
 | Par2 (ws mid : str)                                   (* ws newline mid newline *)
 | Env2 (ws bws name : str) (args body : list item2) (tr ews : str)
                                   (* ws \begin bws {name} {arg}...{arg} body tr \end ews {name} *)
-| Spc2 (ws chars : str) (args : list item2).           (* ws chars {arg}...{arg}   (specials, e.g. [~], [--]) *)
+| Spc2 (ws chars : str) (args : list item2)            (* ws chars {arg}...{arg}   (specials, e.g. [~], [--]) *)
+(* the next two only in ARGUMENT position *)
+| Brk2 (ws : str) (oc cc : N) (body : list item2) (tr : str)   (* ws [ body tr ]   (delimited argument) *)
+| Abs2.                                                 (* an optional argument that is not written *)
 
 Record doc2 := { d_items2 : list item2; d_trail2 : str }.
 
@@ -55,6 +62,8 @@ Fixpoint unparse_item2 (i : item2) : str :=
   | Env2 ws bws name args b tr ews =>
       ws ++ begin_str bws name ++ flat_map unparse_item2 args ++ flat_map unparse_item2 b ++ tr ++ end_str ews name
   | Spc2 ws chars args => ws ++ chars ++ flat_map unparse_item2 args
+  | Brk2 ws oc cc b tr => ws ++ oc :: flat_map unparse_item2 b ++ tr ++ [cc]
+  | Abs2 => []
   end.
 Definition unparse_items2 (l : list item2) : str := flat_map unparse_item2 l.
 Definition unparse2 (d : doc2) : str := unparse_items2 (d_items2 d) ++ d_trail2 d.
@@ -63,7 +72,8 @@ Definition ilen2 (i : item2) : nat := length (unparse_item2 i).
 Definition item_ws2 (i : item2) : str :=
   match i with
   | Text2 ws _ | Grp2 ws _ _ | Mac2 ws _ _ _ | Math2 ws _ _ _ | Cmt2 ws _ _ | Par2 ws _
-  | Env2 ws _ _ _ _ _ _ | Spc2 ws _ _ => ws
+  | Env2 ws _ _ _ _ _ _ | Spc2 ws _ _ | Brk2 ws _ _ _ _ => ws
+  | Abs2 => []
   end.
 
 (** * Side conditions *)
@@ -76,34 +86,91 @@ Definition envname_ok (name : str) : bool :=
     not whitespace, not the escape, math, comment or brace characters *)
 Definition plain_start (c : N) : bool := negb (is_space c) && negb (mem_c c [92;36;37;123;125]%N).
 
-(** [ok_item2 cx ps i fol]: [i] is unambiguous when written in parsing state
-    [ps] and followed by the string [fol] (up to the end of the input) *)
-Fixpoint ok_item2 (cx : context) (ps : pstate) (i : item2) (fol : str) {struct i} : bool :=
-  let oks := fix oks (bps : pstate) (l : list item2) (fh : str) {struct l} : bool :=
+Definition is_nil (w : str) : bool := match w with [] => true | _ => false end.
+
+(** a delimiter pair of a delimited argument: two different characters that
+    reach the group stage of the tokenizer's dispatch *)
+Definition delim_ok (oc cc : N) : bool := plain_start oc && plain_start cc && negb (N.eqb oc cc).
+
+(** what follows a backslash is not a malformed escape sequence (the tokenizer
+    raises on a backslash at the end of the input and on [\begin] / [\end] that
+    is not followed by a letter or by [{name}]) *)
+Definition esc_ok (envs : bool) (r : str) : bool :=
+  match r with
+  | [] => false
+  | _ =>
+      negb envs
+      || (let chk (kw : str) :=
+              negb (startswith r kw) || otest is_alpha (nth_error r (length kw))
+              || match match_envname (skipn (length kw) r) with Some _ => true | None => false end in
+          chk kw_begin && (startswith r kw_begin || chk kw_end))
+  end.
+
+(** an optional argument whose opening character is [oc] is ABSENT when what
+    follows, after whitespace, does not start with [oc] (and is not a malformed
+    escape sequence, on which the tokenizer would raise) *)
+Definition absent_ok (envs : bool) (oc : N) (fol : str) : bool :=
+  match snd (span is_space fol) with
+  | [] => true
+  | c0 :: r => negb (N.eqb c0 oc) && (negb (N.eqb c0 92) || esc_ok envs r)
+  end.
+
+(** the number of optional arguments that are not written *)
+Definition nabs (l : list item2) : nat :=
+  length (filter (fun a => match a with Abs2 => true | _ => false end) l).
+
+(** the model's own fuel ([8 * |s| + 40]) pays for an absent argument out of
+    the characters of the token that starts the call: a call token written with
+    [written] characters may be followed by at most [8 * written - 4] absent
+    arguments (always true of real signatures) *)
+Definition slots_ok (absent written : nat) : bool := Nat.leb (absent + 4) (8 * written).
+
+(** [ok_item2 cx ps ex i fol]: [i] is unambiguous when written in parsing state
+    [ps] and followed by the string [fol] (up to the end of the input); [ex]
+    lists the characters that are group delimiters where [i] is written (the
+    delimiters of the delimited argument whose body [i] directly belongs to) *)
+Fixpoint ok_item2 (cx : context) (ps : pstate) (ex : str) (i : item2) (fol : str) {struct i} : bool :=
+  let oks := fix oks (bps : pstate) (bex : str) (l : list item2) (fh : str) {struct l} : bool :=
       match l with
       | [] => true
-      | j :: r => ok_item2 cx bps j (flat_map unparse_item2 r ++ fh) && oks bps r fh
+      | j :: r => ok_item2 cx bps bex j (flat_map unparse_item2 r ++ fh) && oks bps bex r fh
       end in
   let oka := fix oka (al : list item2) (specs : list argspec) (fh : str) {struct al} : bool :=
       match al, specs with
       | [], [] => true
       | a :: r, spc :: specs' =>
-          match a_kind spc with AKExpr _ => true | _ => false end
-          && match a with
-             | Grp2 [] _ _ => ok_item2 cx (apply_adelta ps (a_delta spc)) a (flat_map unparse_item2 r ++ fh)
-             | _ => false
-             end
+          let aps := apply_adelta ps (a_delta spc) in
+          let fa := flat_map unparse_item2 r ++ fh in
+          match a_kind spc, a with
+          | AKExpr sp, Grp2 ws _ _ =>
+              (* a braced group; whitespace in front of it only if the kind allows it *)
+              (sp || is_nil ws) && ok_item2 cx aps [] a fa
+          | AKGroup [oc'] [cc'] _ sp, Brk2 ws oc cc b tr =>
+              (* a delimited argument with the delimiters of the signature; in its body
+                 (not deeper) the two delimiter characters are not text *)
+              N.eqb oc oc' && N.eqb cc cc' && delim_ok oc cc && (sp || is_nil ws) && ws_ok ws && ws_ok tr
+              && oks aps [oc; cc] b (tr ++ cc :: fa)
+          | AKGroup [oc'] [cc'] true _, Abs2 =>
+              delim_ok oc' cc' && absent_ok (f_en_envs (ps_f aps)) oc' fa
+          | AKChars [ch] sp _, Text2 ws [c] =>
+              (* the marker character ([*]) *)
+              N.eqb c ch && inert cx c && (sp || is_nil ws) && ws_ok ws
+          | AKChars [ch] _ _, Abs2 =>
+              plain_start ch && absent_ok (f_en_envs (ps_f aps)) ch fa
+          | _, _ => false
+          end
           && oka r specs' fh
       | _, _ => false
       end in
   match i with
   | Text2 ws cs =>
-      ws_ok ws && match cs with [] => false | _ => true end && forallb (inert cx) cs
+      ws_ok ws && match cs with [] => false | _ => true end
+      && forallb (fun c => inert cx c && negb (mem_c c ex)) cs
   | Grp2 ws b tr =>
-      ws_ok ws && ws_ok tr && oks ps b (tr ++ 125%N :: fol)
+      ws_ok ws && ws_ok tr && oks ps [] b (tr ++ 125%N :: fol)
   | Math2 ws k b tr =>
       negb (f_in_math (ps_f ps)) && ws_ok ws && ws_ok tr
-      && oks (ps_enter_math ps (Some (m_open k))) b (tr ++ m_close k ++ fol)
+      && oks (ps_enter_math ps (Some (m_open k))) [] b (tr ++ m_close k ++ fol)
       && match k with
          | MDollar => match flat_map unparse_item2 b ++ tr with
                       | [] => false            (* [$$] is the display delimiter *)
@@ -124,7 +191,7 @@ Fixpoint ok_item2 (cx : context) (ps : pstate) (i : item2) (fol : str) {struct i
          | Some sp =>
              match sp_args sp with
              | APStd l =>
-                 oka args l fol
+                 oka args l fol && slots_ok (nabs args) (1 + length name)
                  && mac_follow_ok name post (hd_error (flat_map unparse_item2 args ++ fol))
              | APLegacy _ => false
              end
@@ -132,8 +199,8 @@ Fixpoint ok_item2 (cx : context) (ps : pstate) (i : item2) (fol : str) {struct i
          end
   | Env2 ws bws name args b tr ews =>
       (* environments are enabled in [ps]; the name is one the tokenizer accepts; the
-         environment resolves in the context (fallback included) to a standard signature
-         made of mandatory brace arguments; the body is parsed in math mode if declared so *)
+         environment resolves in the context (fallback included) to a standard
+         signature; the body is parsed in math mode if declared so *)
       ws_ok ws && forallb is_space bws && forallb is_space ews && ws_ok tr
       && envname_ok name && f_en_envs (ps_f ps)
       && match get_env_spec cx name with
@@ -141,7 +208,8 @@ Fixpoint ok_item2 (cx : context) (ps : pstate) (i : item2) (fol : str) {struct i
              match sp_args sp with
              | APStd l =>
                  oka args l (flat_map unparse_item2 b ++ tr ++ end_str ews name ++ fol)
-                 && oks (if sp_body_math sp then ps_enter_math ps None else ps) b
+                 && slots_ok (nabs args) (length (begin_str bws name))
+                 && oks (if sp_body_math sp then ps_enter_math ps None else ps) [] b
                         (tr ++ end_str ews name ++ fol)
              | APLegacy _ => false
              end
@@ -151,8 +219,8 @@ Fixpoint ok_item2 (cx : context) (ps : pstate) (i : item2) (fol : str) {struct i
       (* the specials sequence is THE ONE the tokenizer finds (the longest one of the
          context that is a prefix of what is written from there on, the earlier entry on
          ties), it starts with a character that reaches the specials stage, and its
-         signature is standard, made of mandatory brace arguments *)
-      ws_ok ws && match chars with c :: _ => plain_start c | [] => false end
+         signature is standard *)
+      ws_ok ws && match chars with c :: _ => plain_start c && negb (mem_c c ex) | [] => false end
       && match test_specials (map fst (cx_specials cx)) (chars ++ flat_map unparse_item2 args ++ fol) None with
          | Some sc => str_eqb sc chars
          | None => false
@@ -160,38 +228,50 @@ Fixpoint ok_item2 (cx : context) (ps : pstate) (i : item2) (fol : str) {struct i
       && match get_specials_spec cx chars with
          | Some sp =>
              match sp_args sp with
-             | APStd l => oka args l fol
+             | APStd l => oka args l fol && slots_ok (nabs args) (length chars)
              | APLegacy _ => false
              end
          | None => false
          end
+  | Brk2 _ _ _ _ _ | Abs2 => false        (* only as arguments *)
   end.
 
 (** (same shape as the local fixpoints of [ok_item2]) *)
-Definition ok_items2 (cx : context) : pstate -> list item2 -> str -> bool :=
-  fix oks (bps : pstate) (l : list item2) (fh : str) {struct l} : bool :=
+Definition ok_items2 (cx : context) : pstate -> str -> list item2 -> str -> bool :=
+  fix oks (bps : pstate) (bex : str) (l : list item2) (fh : str) {struct l} : bool :=
     match l with
     | [] => true
-    | j :: r => ok_item2 cx bps j (flat_map unparse_item2 r ++ fh) && oks bps r fh
+    | j :: r => ok_item2 cx bps bex j (flat_map unparse_item2 r ++ fh) && oks bps bex r fh
     end.
+
+(** one argument [a], written for the slot [spc] of a call in state [ps], followed by [fa] *)
+Definition ok_arg2 (cx : context) (ps : pstate) (spc : argspec) (a : item2) (fa : str) : bool :=
+  let aps := apply_adelta ps (a_delta spc) in
+  match a_kind spc, a with
+  | AKExpr sp, Grp2 ws _ _ => (sp || is_nil ws) && ok_item2 cx aps [] a fa
+  | AKGroup [oc'] [cc'] _ sp, Brk2 ws oc cc b tr =>
+      N.eqb oc oc' && N.eqb cc cc' && delim_ok oc cc && (sp || is_nil ws) && ws_ok ws && ws_ok tr
+      && ok_items2 cx aps [oc; cc] b (tr ++ cc :: fa)
+  | AKGroup [oc'] [cc'] true _, Abs2 =>
+      delim_ok oc' cc' && absent_ok (f_en_envs (ps_f aps)) oc' fa
+  | AKChars [ch] sp _, Text2 ws [c] =>
+      N.eqb c ch && inert cx c && (sp || is_nil ws) && ws_ok ws
+  | AKChars [ch] _ _, Abs2 =>
+      plain_start ch && absent_ok (f_en_envs (ps_f aps)) ch fa
+  | _, _ => false
+  end.
 
 Definition ok_args2 (cx : context) (ps : pstate) : list item2 -> list argspec -> str -> bool :=
   fix oka (al : list item2) (specs : list argspec) (fh : str) {struct al} : bool :=
     match al, specs with
     | [], [] => true
-    | a :: r, spc :: specs' =>
-        match a_kind spc with AKExpr _ => true | _ => false end
-        && match a with
-           | Grp2 [] _ _ => ok_item2 cx (apply_adelta ps (a_delta spc)) a (flat_map unparse_item2 r ++ fh)
-           | _ => false
-           end
-        && oka r specs' fh
+    | a :: r, spc :: specs' => ok_arg2 cx ps spc a (flat_map unparse_item2 r ++ fh) && oka r specs' fh
     | _, _ => false
     end.
 
 (** a document written at top level, in the walker's initial state *)
 Definition ok_doc2_in (cx : context) (ps : pstate) (d : doc2) : bool :=
-  ok_items2 cx ps (d_items2 d) (d_trail2 d) && ws_ok (d_trail2 d).
+  ok_items2 cx ps [] (d_items2 d) (d_trail2 d) && ws_ok (d_trail2 d).
 Definition ok_doc2 (cx : context) (d : doc2) : bool := ok_doc2_in cx (walker_state cx) d.
 
 (** * The meaning of a document (accumulator form, as [DocGrammar.tree_of]) *)
@@ -216,11 +296,23 @@ Fixpoint node_of2 (cx : context) (ps : pstate) (p0 : nat) (i : item2) {struct i}
       match al, specs with
       | a :: r, spc :: specs' =>
           let rr := goa (p + ilen2 a) r specs' in
-          (node_of2 cx (apply_adelta ps (a_delta spc)) p a :: fst rr, snd rr)
+          let aps := apply_adelta ps (a_delta spc) in
+          let q := p + length (item_ws2 a) in
+          (match a_kind spc, a with
+           | AKChars _ _ full, Text2 _ cs =>
+               let cn := mk_chars aps q (q + length cs) cs in
+               Some (if full then mk_nodelist None None [Some cn] else cn)
+           | _, _ => node_of2 cx aps q a
+           end :: fst rr, snd rr)
       | _, _ => ([], p)
       end in
   match i with
   | Text2 _ _ => None
+  | Abs2 => None
+  | Brk2 _ oc cc b tr =>
+      let r := body ps (S p0) cs_empty b in
+      Some (NGroup p0 (snd r + length tr + 1) (ps_mode ps) [oc] [cc]
+                   (Some (gen_nodelist (S p0) (cs_acc (close_state ps (fst r) tr (snd r))))))
   | Cmt2 _ text post =>
       Some (NComment p0 (p0 + 1 + length text + length post) (ps_mode ps) text post)
   | Par2 _ mid =>
@@ -290,12 +382,23 @@ Definition absorb2 (cx : context) : pstate -> nat -> collstate -> list item2 -> 
     | j :: r => go bps (p + ilen2 j) (absorb_item2 cx bps p st j) r
     end.
 
+(** the node of the argument [a] written at [p] (leading whitespace included) for the slot [spc] *)
+Definition arg_node2 (cx : context) (ps : pstate) (spc : argspec) (p : nat) (a : item2) : option node :=
+  let aps := apply_adelta ps (a_delta spc) in
+  let q := p + length (item_ws2 a) in
+  match a_kind spc, a with
+  | AKChars _ _ full, Text2 _ cs =>
+      let cn := mk_chars aps q (q + length cs) cs in
+      Some (if full then mk_nodelist None None [Some cn] else cn)
+  | _, _ => node_of2 cx aps q a
+  end.
+
 Definition arg_nodes2 (cx : context) (ps : pstate) : nat -> list item2 -> list argspec -> list (option node) * nat :=
   fix goa (p : nat) (al : list item2) (specs : list argspec) {struct al} : list (option node) * nat :=
     match al, specs with
     | a :: r, spc :: specs' =>
         let rr := goa (p + ilen2 a) r specs' in
-        (node_of2 cx (apply_adelta ps (a_delta spc)) p a :: fst rr, snd rr)
+        (arg_node2 cx ps spc p a :: fst rr, snd rr)
     | _, _ => ([], p)
     end.
 
@@ -331,6 +434,8 @@ Fixpoint wsv2 (i i' : item2) {struct i} : Prop :=
   | Env2 ws _ nm a b tr _, Env2 ws' _ nm' a' b' tr' _ =>
       wse ws ws' /\ nm = nm' /\ wse tr tr' /\ all2 a a' /\ all2 b b'
   | Spc2 ws ch a, Spc2 ws' ch' a' => wse ws ws' /\ ch = ch' /\ all2 a a'
+  | Brk2 ws oc cc b tr, Brk2 ws' oc' cc' b' tr' => wse ws ws' /\ oc = oc' /\ cc = cc' /\ wse tr tr' /\ all2 b b'
+  | Abs2, Abs2 => True
   | _, _ => False
   end.
 Definition wsv_items2 : list item2 -> list item2 -> Prop :=
